@@ -1,4 +1,5 @@
 import WcModel.Spec.Lang
+import WcModel.Spec.Scope
 import WcModel.Model.Frag
 import WcModel.Model.Posix
 /-
@@ -16,12 +17,6 @@ def SCls.toClsItem (isBytes : Bool) : SCls → ClsItem
   | .chr c => .chr c false
   | .range lo hi => .range lo false hi false
   | .posix n => posixItem isBytes n
-
-/-- syntactically empty (consumes no pattern text) -/
-def Pat.isEmpty : Pat → Bool
-  | .eps => true
-  | .seq a b => a.isEmpty && b.isEmpty
-  | _ => false
 
 /-- the star of a `!(…)` group (1484-1498, fn mode) -/
 def negStar (dot as : Bool) : Re :=
